@@ -7,7 +7,7 @@ use crate::rng::Rng;
 use crate::run::*;
 use crate::sched::*;
 use crate::sess::panic_violation;
-use slotted_egraphs::Slot;
+use slotted_egraphs::{Language, RecExpr, Slot};
 use std::collections::HashMap;
 
 pub struct SlotCheck;
@@ -44,7 +44,17 @@ fn exec_slot_op(op: &Op, hist: &Vec<Resp>) -> Resp {
     let r = catch(|| match op.name.as_str() {
         "fresh" => Slot::fresh(),
         "numeric" => Slot::numeric((op.int(1).rem_euclid(1 << 30)) as u32),
-        "named" => Slot::named(&op.s[0]),
+        "named" => {
+            let name = &op.s[0];
+            let tokenizable = !name.is_empty() && name.chars().all(|c| !c.is_whitespace() && !"()[]".contains(c));
+            if op.int(1) == 1 && tokenizable {
+                // the same name spelled inside a term and read by the crate's parser
+                let re = RecExpr::<crate::langs::LS>::parse(&format!("(p1 ${name})")).unwrap_or_else(|e| panic!("harness: (p1 ${name}) does not parse: {e:?}"));
+                re.node.all_slot_occurrences()[0]
+            } else {
+                Slot::named(name)
+            }
+        }
         "reparse" => {
             let j = op.int(1).rem_euclid(hist.len().max(1) as i64) as usize;
             match hist.get(j).and_then(|r| r.slot) {
@@ -109,7 +119,7 @@ impl Check for SlotCheck {
                     2 => {
                         // the crate's counter after `fresh_made` calls is not known to the
                         // generator exactly (named f<n> bumps it); names around it are what matters
-                        Op::new("named").i(t as i64).s(&adversarial_name(&mut w, fresh_made))
+                        Op::new("named").i(t as i64).i(w.below(2) as i64).s(&adversarial_name(&mut w, fresh_made))
                     }
                     _ => Op::new("reparse").i(t as i64).i(w.below(k + 1) as i64),
                 };
